@@ -497,39 +497,82 @@ def r5_selectors(ck, repo):
 
 
 def r5_ducb(ck, repo, nf: NF):
+    """choose_arm: per path the recorded arm is the round-robin arm iff len(rewards) < 2*n_arms and the arg-max of (discounted mean +
+    padding) otherwise (selector truth table over path evaluation: arm order, guard clauses and helper structure do not matter)."""
+    from ..sympath import enumerate_paths, PathEval
+    from ..sem import selector_table
     q = "rl_blox.blox.mapb.DUCB.choose_arm"
     fn = repo.func(q)
     mi = fn._module
     cfg = nf.cfg_of(fn)
-    sc = Scope(cfg, mi, {}, q)
-    ifs = [n for n in cfg.nodes if n.kind == "test" and isinstance(n.ast, ast.If) and not cfg.control_deps(n.id)]
-    ck.need(ifs, f"{q}: no top-level branch (unrecognised idiom)")
-    t = ifs[0]
-    guard = nf.poly(t.ast.test, sc, t.id).canon()
-    want = "Lt(len(self.rewards), 2*self.n_arms)"
-    ck.ob("R5-scheduler", q, "initial-rounds-guard", guard == want, f"if {short(t.ast.test)}", "" if guard == want else f"initial-round guard is `{guard}`, expected `{want}`", loc(mi, t.ast))
-    # value of arm_idx on both arms at the append
-    app = [n for n in cfg.nodes if n.kind == "stmt" and isinstance(n.ast, ast.Expr) and isinstance(n.ast.value, ast.Call) and dotted(n.ast.value.func) == "self.chosen_arms.append"]
-    ck.need(len(app) == 1, f"{q}: chosen_arms.append not found")
-    a = app[0]
-    p = cfg.paths_avoiding(cfg.entry, cfg.exit, {a.id})
-    ck.ob("R5-scheduler", q, "records-choice", p is None, "self.chosen_arms.append(arm_idx) on every path", "" if p is None else "a path returns an arm without recording it", loc(mi, a.ast))
-    arg = a.ast.value.args[0]
-    vals = {}
-    for d in cfg.defs_of(a.id, arg.id) if isinstance(arg, ast.Name) else []:
-        arm = "init" if (t.id, True) in cfg.control_deps(d.node) else "ucb"
-        vals[arm] = nf._def_value(d, sc, 0).canon()
+    nfp = NF(repo, inline_depth=1, inline_calls=False)
+    rets = [n for n in cfg.nodes if n.kind == "stmt" and isinstance(n.ast, ast.Return)]
+    stops = {r.id for r in rets} or {cfg.exit}
+    items, kinds, unrecorded = [], {}, 0
     want_init = "mod(len(self.rewards), self.n_arms)"
-    ck.ob("R5-scheduler", q, "round-robin-arm", vals.get("init") == want_init, f"arm_idx = {vals.get('init')}", "" if vals.get("init") == want_init else f"initial rounds do not play every arm in turn (expected {want_init})", loc(mi, t.ast))
-    u = vals.get("ucb", "")
-    ok = u.startswith("argmax(") and "_discounted_empirical_mean" in u and "_padding_function" in u and " + " in u and "-" not in u.replace("- ", "~")[:0]
-    ck.ob("R5-scheduler", q, "ucb-argmax", ok, f"arm_idx = {u[:100]}", "" if ok else "after the initial rounds the arm is not argmax(discounted mean + padding)", loc(mi, t.ast))
+    for pth in enumerate_paths(cfg, cfg.entry, stops, max_paths=2000):
+        pe = PathEval(nfp, cfg, mi, q, {}).run(pth[:-1])
+        rec = [v.canon() for _, k, v in pe.appended if k == "self.chosen_arms"]
+        last = cfg.nodes[pth[-1][0]]
+        rv = pe.ev(last.ast.value).canon() if last.kind == "stmt" and isinstance(last.ast, ast.Return) and last.ast.value is not None else None
+        if len(rec) != 1 or (rv is not None and rv != rec[0]):
+            unrecorded += 1
+            continue
+        a = rec[0]
+        if a == want_init:
+            kind = "init"
+        elif a.startswith("argmax(") and "_discounted_empirical_mean" in a and "_padding_function" in a:
+            kind = "ucb"
+            kinds.setdefault("ucb", set()).add(a)
+        elif a.startswith("argmin(") or (a.startswith("argmax(") and ("_discounted_empirical_mean" not in a or "_padding_function" not in a)) or a.startswith("mod(") or "len(self.rewards)" in a:
+            kind = "other:" + a[:60]
+        else:
+            raise AnalysisError(f"{q}: chosen arm `{a[:90]}` is neither the round-robin arm nor argmax(mean + padding) in a form this check reads")
+        conds = [(cfg.nodes[nid].ast.test, nid, lab) for nid, lab in pth[:-1] if cfg.nodes[nid].kind == "test" and lab in (True, False) and isinstance(cfg.nodes[nid].ast, ast.If) and "verbose" not in ast.unparse(cfg.nodes[nid].ast.test)]
+        items.append((conds, kind))
+    ck.ob("R5-scheduler", q, "records-choice", unrecorded == 0, "the returned arm is appended to chosen_arms on every path", "" if unrecorded == 0 else "a path returns an arm without recording it (or records another one)", loc(mi, fn))
+    bad = sorted({k for _, k in items if k.startswith("other:")})
+    ck.ob("R5-scheduler", q, "round-robin-arm", not any(b.startswith("other:mod(") or "len(self.rewards)" in b for b in bad), f"initial arm = {want_init}", "" if not bad else f"initial rounds do not play every arm in turn (expected {want_init}); got {bad[:1]}", loc(mi, fn))
+    okucb = "ucb" in kinds and not any(b.startswith("other:arg") for b in bad)
+    if okucb:
+        # the sum must be mean + padding (not a difference): the argmax argument has two positive terms
+        u = sorted(kinds["ucb"])[0]
+        inner = nfp.meta.get(u, {}).get("args", [None])[0]
+        okucb = inner is not None and len(inner.terms) == 2 and all(c == 1 for c in inner.terms.values())
+    ck.ob("R5-scheduler", q, "ucb-argmax", okucb, f"arm = {sorted(kinds.get('ucb', ['?']))[0][:100]}", "" if okucb else "after the initial rounds the arm is not argmax(discounted mean + padding)", loc(mi, fn))
+    items2 = [(c, k if not k.startswith("other:") else "ucb") for c, k in items]
+    pred = parse_expr("len(self.rewards) < 2 * self.n_arms")
+    first_test = next((nid for conds_, _ in items2 for _, nid, _ in conds_), None)
+    ck.need(first_test is not None, f"{q}: no branch between initial rounds and index policy (unrecognised idiom)")
+    verdict, info = selector_table(nfp, mi, cfg, items2, pred, "init", "ucb", pred_at=first_test)
+    if verdict is None:
+        # a threshold test on the same quantity with another (polynomially different) threshold is a definite deviation
+        thr = set()
+        for conds_, _ in items2:
+            for t_, nid_, _ in conds_:
+                if isinstance(t_, ast.Compare) and len(t_.ops) == 1:
+                    sc_ = Scope(cfg, mi, {}, q)
+                    l_, r_ = nfp.poly(t_.left, sc_, nid_).canon(), nfp.poly(t_.comparators[0], sc_, nid_).canon()
+                    if l_ == "len(self.rewards)":
+                        thr.add(r_)
+                    elif r_ == "len(self.rewards)":
+                        thr.add(l_)
+        if thr and "2*self.n_arms" not in thr and all("self.n_arms" in t_ or t_.lstrip("-").isdigit() for t_ in thr):
+            verdict, info = False, f"threshold {sorted(thr)} instead of 2*self.n_arms"
+        else:
+            raise AnalysisError(f"{q}: initial-rounds test not comparable with len(rewards) < 2*n_arms: {info}")
+    ck.ob("R5-scheduler", q, "initial-rounds-guard", verdict, "round-robin iff len(self.rewards) < 2*self.n_arms (truth table over the branch conditions)", "" if verdict else f"every arm must be played twice before the index policy takes over: round-robin exactly while len(rewards) < 2*n_arms; differs in the world {info}", loc(mi, fn))
     # reward(): append then refresh frequencies
     rq = "rl_blox.blox.mapb.DUCB.reward"
     rf = repo.func(rq)
-    calls = [dotted(n.func) for n in ast.walk(rf) if isinstance(n, ast.Call)]
-    ok = calls[:2] == ["self.rewards.append", "self._episode_finished"]
-    ck.ob("R5-scheduler", rq, "reward-then-refresh", ok, " ; ".join(calls), "" if ok else "reward() must record the reward and then refresh the discounted frequencies", loc(rf._module, rf))
+    rcfg = nf.cfg_of(rf)
+    apps = [n for n in rcfg.nodes if n.kind == "stmt" and isinstance(n.ast, ast.Expr) and isinstance(n.ast.value, ast.Call) and dotted(n.ast.value.func) == "self.rewards.append"]
+    refresh = [n for n in rcfg.nodes if n.kind == "stmt" and n.ast is not None and any(isinstance(c, ast.Call) and dotted(c.func) == "self._episode_finished" for c in ast.walk(n.ast))]
+    if not refresh:
+        # the refresh may have been inlined: any write of the discounted frequencies counts
+        refresh = [n for n in rcfg.nodes if n.kind == "stmt" and n.ast is not None and "self.discounted_frequencies" in ast.unparse(n.ast) and isinstance(n.ast, (ast.Assign, ast.AugAssign))]
+    ok = len(apps) == 1 and bool(refresh) and all(rcfg.paths_avoiding(r.id, apps[0].id, set()) is None for r in refresh) and rcfg.paths_avoiding(rcfg.entry, rcfg.exit, {apps[0].id}) is None
+    ck.ob("R5-scheduler", rq, "reward-then-refresh", ok, f"{len(apps)} append(s), {len(refresh)} refresh statement(s)", "" if ok else "reward() must record the reward and then refresh the discounted frequencies", loc(rf._module, rf))
 
 
 def r5_ducb_mean(ck, repo, nf: NF):
